@@ -1,12 +1,14 @@
 use crate::fw::CheckDef;
 pub mod c03;
 pub mod core;
+pub mod valsem;
 pub mod c28;
 
 pub fn registry() -> Vec<CheckDef> {
     let mut v = vec![];
     v.push(c03::def());
     v.extend(core::defs());
+    v.extend(valsem::defs());
     v.push(c28::def());
     v
 }
